@@ -833,6 +833,20 @@ def _r4(ctx, pkg):
                           "rate builder is evaluated afresh for every reaction" if not bad else
                           f"rate builder is memoised ({bad[0]}): Reaction.__hash__/__eq__ ignore alpha/beta/gamma, so a reaction equal to an earlier one "
                           "reuses that reaction's rate string", found=", ".join(decs))
+    # ... and no memoised WRAPPER around a rate builder anywhere in the package (`@lru_cache def _rateexpr(reac, grain): return
+    # reac.rateexpr(grain)` in the renderer): the memo is keyed by the reaction's hash / equality all the same
+    wrappers = [(f, name, fn) for (f, name), fn in pkg.functions.items()] + [(ci.file, f"{ci.name}.{m}", fn) for ci in pkg.classes.values() for m, fn in ci.methods.items()]
+    for f, name, fn in wrappers:
+        decs = [ast.unparse(d) for d in fn.decorator_list]
+        memo = [d for d in decs if any(c in d for c in CACHES)]
+        if not memo:
+            continue
+        calls = [c for c in ast.walk(fn) if isinstance(c, ast.Call) and isinstance(c.func, ast.Attribute) and (c.func.attr == "rateexpr" or c.func.attr.startswith("rate_"))]
+        if calls:
+            ctx.bad("R4", f"{name}:memoised wrapper of a rate builder", (f, fn.lineno),
+                    f"`{name}` is memoised ({memo[0]}) and returns what `{ast.unparse(calls[0].func)}` builds: Reaction.__hash__/__eq__ ignore alpha/beta/gamma (and the "
+                    "temperature window), so a reaction equal to an earlier one -- of this network or of one rendered before in the same process -- gets that reaction's rate string",
+                    expected="the rate expression is built afresh from each reaction's own coefficients", found=", ".join(decs))
     ctx.floor("R4", "rate builders", n, 30)
 
 
@@ -855,6 +869,8 @@ MUTANTS = [
     {"name": "leeds-cr-without-xray", "file": L, "old": 'rate = f"{a} * (zeta_cr + zeta_xr) / zism"', "new": 'rate = f"{a} * zeta_cr / zism"', "rules": ["R3"]},
     {"name": "uclchem-habing-factor", "file": UC, "old": 'rate = f"G0 * {a} * exp(-{c}*Av) / 1.7"', "new": 'rate = f"G0 * {a} * exp(-{c}*Av)"', "rules": ["R3"]},
     {"name": "kida-gamma0-shortcut", "file": K, "old": "        if formula == 1:\n            rate = f\"{a} * zeta\"", "new": "        if formula in (4, 5) and not c:\n            rate = f\"{a} * {b}\"\n        elif formula == 1:\n            rate = f\"{a} * zeta\"", "rules": ["R3"]},
+    {"name": "renderer-memoises-rate-strings", "file": "naunet/templateloader.py",
+     "old": "class TemplateLoader:", "new": "from functools import lru_cache\n\n\n@lru_cache(maxsize=None)\ndef _rateexpr(reac, grain=None):\n    return reac.rateexpr(grain) if grain else reac.rateexpr()\n\n\nclass TemplateLoader:", "rules": ["R4"]},
     {"name": "rateexpr-lru-cache", "file": U, "old": "    def rateexpr(self, grain: Grain = None) -> str:", "new": "    @__import__('functools').lru_cache(maxsize=None)\n    def rateexpr(self, grain: Grain = None) -> str:", "rules": ["R4"]},
     {"name": "native-type-gap", "file": R, "old": "        elif rtype == ReactionType.GAS_KIDA_IP2:", "new": "        elif rtype == ReactionType.GAS_THREEBODY:", "rules": ["R2", "R3"]},
     {"name": "grain-list-missing-type", "file": R, "old": "            ReactionType.GRAIN_DESORB_H2,\n", "new": "", "rules": ["R2"]},
